@@ -42,6 +42,8 @@ static void float_case(int width, uint64_t pat, bool item_path) {
   else {
     uint64_t got = rec_ev[0].arg;
     bool got_nan = width == 8 ? ref_is_nan64(got) : ref_is_nan32((uint32_t)got);
+    /* observed, not judged: whether the decoder hands the NaN's payload bits through (see DESIGN.md §6.8) */
+    if (is_nan && got_nan) { if (width == 2) VH_COUNT("nan.half_patterns_decoded_as_some_nan", 1); else if (got == pat) { if (width == 4) VH_COUNT("nan.single_payload_bits_preserved_by_decoder", 1); else VH_COUNT("nan.double_payload_bits_preserved_by_decoder", 1); } else { if (width == 4) VH_COUNT("nan.single_payload_bits_not_preserved_by_decoder", 1); else VH_COUNT("nan.double_payload_bits_not_preserved_by_decoder", 1); } }
     if (is_nan ? !got_nan : got != want_bits)
       vh_violation("decoded-value-differs", "width %d pattern %llx decoded to bits %llx, IEEE-754 says %llx%s", width, (unsigned long long)pat, (unsigned long long)got, (unsigned long long)want_bits, is_nan ? " (any NaN)" : "");
     /* encode the decoded value */
@@ -161,7 +163,7 @@ static void float_exec(const uint8_t* d, size_t n) {
 const struct vh_driver drv_float = {"float", float_run, float_exec, "float decode/encode exactness (C15)"};
 
 /* ------------------------------------------------------------------- C16 */
-static uint64_t g_valid, g_invalid, g_entry[3];
+static uint64_t g_valid, g_invalid, g_entry[3], g_reattach;
 
 /* descriptor: entry mask byte, then the text bytes */
 static void utf8_case(const uint8_t* s, size_t n, int entries) {
@@ -173,11 +175,24 @@ static void utf8_case(const uint8_t* s, size_t n, int entries) {
   size_t want = valid ? cnt : 0;
   if (valid) g_valid++; else g_invalid++;
   uint8_t* ex = vh_exact(s, n);
-  for (int e = 0; e < 3; e++) {
+  for (int e = 0; e < 4; e++) {
     if (!(entries & (1 << e))) continue;
     cbor_item_t* it = NULL;
-    const char* how = e == 0 ? "cbor_build_stringn" : e == 1 ? "cbor_string_set_handle" : "cbor_load";
-    if (e == 0) it = cbor_build_stringn((const char*)ex, n);
+    const char* how = e == 0 ? "cbor_build_stringn" : e == 1 ? "cbor_string_set_handle" : e == 2 ? "cbor_load" : "cbor_string_set_handle on an item that held valid text before (same block, edited in place)";
+    if (e == 3) {
+      /* attach valid text first, then edit the same block in place and attach it again */
+      static const unsigned char valid[] = {0xc3, 0xa9, 0xe2, 0x82, 0xac, 'o', 'k'};
+      size_t cap = n > sizeof valid ? n : sizeof valid;
+      it = cbor_new_definite_string();
+      unsigned char* h = ta_malloc(cap);
+      if (it && h) {
+        memcpy(h, valid, sizeof valid);
+        cbor_string_set_handle(it, h, sizeof valid);
+        if (cbor_string_codepoint_count(it) != 4) vh_violation("codepoint-count-differs", "valid text c3a9e282ac6f6b reports %zu code points", cbor_string_codepoint_count(it));
+        if (n) memcpy(h, s, n);
+        cbor_string_set_handle(it, h, n);
+      }
+    } else if (e == 0) it = cbor_build_stringn((const char*)ex, n);
     else if (e == 1) {
       it = cbor_new_definite_string();
       unsigned char* h = ta_malloc(n);
@@ -198,7 +213,7 @@ static void utf8_case(const uint8_t* s, size_t n, int entries) {
       vb_free(&in);
     }
     if (!it) continue;
-    g_entry[e]++;
+    if (e < 3) g_entry[e]++; else g_reattach++;
     if (!cbor_isa_string(it) || !cbor_string_is_definite(it)) vh_violation("not-a-text-string", "%s did not produce a definite text string", how);
     else {
       size_t got = cbor_string_codepoint_count(it);
@@ -241,7 +256,7 @@ static void utf8_run(void) {
     size_t N = O.budget ? (size_t)O.budget : (O.thorough ? 4 : 3);
     size_t from = O.budget2 ? (size_t)O.budget2 : 0;
     uint8_t b[8];
-    if (O.shard == 0 && from == 0) utf8_case(b, 0, 7);
+    if (O.shard == 0 && from == 0) utf8_case(b, 0, 15);
     for (size_t len = from ? from : 1; len <= N; len++) {
       uint64_t per = (uint64_t)1 << (8 * (len - 1));
       for (unsigned first = 0; first < 256; first++) {
@@ -249,7 +264,7 @@ static void utf8_run(void) {
         b[0] = (uint8_t)first;
         for (uint64_t v = 0; v < per; v++) {
           for (size_t i = 1; i < len; i++) b[i] = (uint8_t)(v >> (8 * (len - 1 - i)));
-          utf8_case(b, len, len <= 3 ? 7 : ((v & 31) == 0 ? 7 : 1));
+          utf8_case(b, len, len <= 3 ? 15 : ((v & 31) == 0 ? 15 : 1));
         }
       }
     }
@@ -267,7 +282,7 @@ static void utf8_run(void) {
       for (uint64_t v = 0; v < total; v++) {
         if ((int)((v >> (3 * (len - 2))) % (uint64_t)O.nshards) != O.shard) { v |= ((uint64_t)1 << (3 * (len - 2))) - 1; continue; }
         for (size_t i = 0; i < len; i++) b[i] = al[(v >> (3 * (len - 1 - i))) & 7];
-        utf8_case(b, len, (v & 15) == 0 ? 7 : 1);
+        utf8_case(b, len, (v & 15) == 0 ? 15 : 1);
       }
     }
     vh_set_exhaustive(false);
@@ -282,7 +297,7 @@ static void utf8_run(void) {
       size_t starts[130];
       for (size_t i = 0; i < ns; i++) { starts[i] = n; n += put_scalar(txt + n, rand_scalar(&r)); }
       starts[ns] = n;
-      utf8_case(txt, n, 7);
+      utf8_case(txt, n, 15);
       /* one injected fault at every scalar position */
       for (size_t i = 0; i <= ns; i++) {
         static const uint8_t faults[][4] = {{0xc0, 0x80}, {0xc1, 0xbf}, {0xe0, 0x80, 0x80}, {0xe0, 0x9f, 0xbf}, {0xf0, 0x80, 0x80, 0x80}, {0xf0, 0x8f, 0xbf, 0xbf}, {0xed, 0xa0, 0x80}, {0xed, 0xbf, 0xbf},
@@ -293,7 +308,7 @@ static void utf8_run(void) {
         memcpy(mut, txt, at);
         memcpy(mut + at, faults[k], flen[k]);
         memcpy(mut + at + flen[k], txt + at, n - at);
-        utf8_case(mut, n + flen[k], (u & 3) == 0 ? 7 : 1);
+        utf8_case(mut, n + flen[k], (u & 3) == 0 ? 15 : 9);
         /* truncate the scalar that starts here */
         if (i < ns && starts[i + 1] - at > 1) { size_t cut = 1 + vh_below(&r, starts[i + 1] - at - 1); memcpy(mut, txt, at + cut); memcpy(mut + at + cut, txt + starts[i + 1], n - starts[i + 1]); utf8_case(mut, n - (starts[i + 1] - at - cut), 1); }
       }
@@ -335,7 +350,8 @@ static void utf8_run(void) {
   vh_count_dyn("entry.build_stringn", g_entry[0]);
   vh_count_dyn("entry.set_handle", g_entry[1]);
   vh_count_dyn("entry.load", g_entry[2]);
-  vh_set_rule("each case is a byte sequence attached as a definite text string through build_stringn / set_handle / cbor_load; the reported code point count is compared with an independent RFC 3629 validator (count if valid, else 0), and length and bytes must be unchanged; non-trivial = non-empty sequence; distinct by construction in the exhaustive sweep (hashed)");
+  vh_count_dyn("entry.set_handle_again_on_same_item", g_reattach);
+  vh_set_rule("each case is a byte sequence attached as a definite text string through build_stringn / set_handle / cbor_load / a second set_handle on an item that held valid text; the reported code point count is compared with an independent RFC 3629 validator (count if valid, else 0), and length and bytes must be unchanged; non-trivial = non-empty sequence; distinct by construction in the exhaustive sweep (hashed)");
 }
 static void utf8_exec(const uint8_t* d, size_t n) {
   ref_selftest();
